@@ -271,9 +271,9 @@ class SimLock:
 
 
 class _SimThreadInfo:
-    def __init__(self, ident):
+    def __init__(self, ident, name=None):
         self.ident = ident
-        self.name = "sim-%d" % ident
+        self.name = name or "sim-%d" % ident
 
 
 def make_threading():
@@ -287,7 +287,10 @@ def make_threading():
         k = State.kernel
         t = k.cur_thread if k is not None else 0
         # distinct, stable, never-reused idents (DESIGN 4.2)
-        return _SimThreadInfo(7000 + t)
+        # names are the application's choice and need not be distinct
+        names = k.cfg.get("thread_names") if k is not None else None
+        return _SimThreadInfo(7000 + t, "MainThread" if t == 0 else
+                              (names or {}).get(str(t)))
 
     m.current_thread = current_thread
     return m
